@@ -306,8 +306,12 @@ fn fields_example(
             Ok(quote!(( #(#field_values ,)* #maybe_phantom )))
         }
         (true, true) => {
-            // no fields
-            Ok(quote!())
+            // no fields; a field-less struct with unused type params is generated as `Foo(PhantomData<..>)`
+            if needs_phantom_data {
+                Ok(quote!((::core::marker::PhantomData)))
+            } else {
+                Ok(quote!())
+            }
         }
         (false, false) => {
             // mixed fields
